@@ -55,9 +55,13 @@ def rec_case(seed):
     interp = B.BkgZoomInterpolator() if zoom else B.BkgIDWInterpolator()
     from astropy.stats import SigmaClip
 
-    def run(dd, mm=m):
-        return B.Background2D(dd, (by, bx), mask=mm, coverage_mask=cm, exclude_percentile=float(p), filter_size=1, bkg_estimator=est,
-                              sigma_clip=SigmaClip(sigma=float(sigma), maxiters=maxiters), interpolator=interp, fill_value=fill)
+    def run(dd, mm=m, fsize=1, fthr=None):
+        return B.Background2D(dd, (by, bx), mask=mm, coverage_mask=cm, exclude_percentile=float(p), filter_size=fsize, filter_threshold=fthr,
+                              bkg_estimator=est, sigma_clip=SigmaClip(sigma=float(sigma), maxiters=maxiters), interpolator=interp, fill_value=fill)
+    # median filter of the meshes (whole mesh, or only the boxes above filter_threshold)
+    fsize = rng.choice([(3, 3), (1, 3), (3, 1), (5, 3), (3, 5)]) if rng.random() < 0.5 else None
+    selective = rng.random() < 0.6
+    fthr = base + rng.randint(0, 6) + 0.37
     bad = sorted({(r, c) for r, c in mask} | {(r, c) for r, c in nonfin} | {(r, c) for r, c in cov})
     rec = {'id': seed, 'kind': 'mesh', 'data': data, 'bad': [list(x) for x in bad], 'coverage': cov, 'box': [by, bx], 'p': p, 'estimator': estimator,
            'sigma': sigma, 'maxiters': maxiters, 'zoom': zoom, 'fill_k': int(round(fill * S)), 'raised': False,
@@ -74,6 +78,23 @@ def rec_case(seed):
         except ValueError:
             rec['raised'] = True
             return out
+
+        if fsize is not None:
+            frec = {'id': 200000000 + seed, 'kind': 'filter', 'raw': rec['mesh'], 'rawrms': rec['rmsmesh'], 'fs': list(fsize), 'sel': selective,
+                    'thr': int(round(fthr * S)), 'zoom': zoom, 'coverage': cov, 'fill_k': rec['fill_k'], 'raised': False, 'read_rms_first': bool(seed % 2),
+                    'mesh': [[0]], 'rmsmesh': [[0]], 'bkg': [[0]], 'rms': [[0]], 'map_finite': True}
+            try:
+                bf = run(d, fsize=fsize, fthr=fthr if selective else None)
+                if frec['read_rms_first']:
+                    frec['rmsmesh'] = fxa(bf.background_rms_mesh)
+                frec['mesh'] = fxa(bf.background_mesh)
+                frec['rmsmesh'] = fxa(bf.background_rms_mesh)
+                fb, fr = np.asarray(bf.background), np.asarray(bf.background_rms)
+                frec.update(bkg=fxa(fb), rms=fxa(fr), map_finite=bool(np.all(np.isfinite(fb)) and np.all(np.isfinite(fr))))
+            except Exception as e:  # noqa
+                frec['raised'] = True
+                frec['exc'] = repr(e)
+            out.append(frec)
 
         def pair(rel, a, bb, tol=2, raised=False):
             out.append({'id': 100000000 + seed * 10 + len(out), 'kind': 'pair', 'rel': rel, 'a': np.ravel(fxa(a)).tolist(), 'b': np.ravel(fxa(bb)).tolist(),
@@ -101,6 +122,13 @@ def rec_case(seed):
             bk = run(d * 3.0)
             pair('scaling_scales_background_and_rms', np.concatenate([np.asarray(bk.background)[fillmask], np.asarray(bk.background_rms)[fillmask]]),
                  np.concatenate([bkg[fillmask] * 3.0, rms[fillmask] * 3.0]), tol=6)
+            if seed % 5 == 0:
+                # a large box of a constant single-precision image whose value is not exactly summable
+                cval = np.float32(1000.1 + (seed % 7))
+                big = np.full((rng.choice([50, 64]), rng.choice([50, 64, 100])), cval, dtype=np.float32)
+                bb_ = B.Background2D(big, big.shape if seed % 2 else (50, 50), filter_size=1, bkg_estimator=est, interpolator=interp)
+                bgm, brm = np.asarray(bb_.background, dtype=float), np.asarray(bb_.background_rms, dtype=float)
+                pair('constant_image_reproduced_with_zero_rms', [bgm.min(), bgm.max(), brm.min(), brm.max()], [float(cval), float(cval), 0.0, 0.0], tol=2)
         except ValueError:
             pair('relations', [0], [1], raised=True)
     return out
@@ -148,7 +176,7 @@ def record_without_bottleneck(ctx, seeds):
 def run(ctx):
     q = ctx.quick
     ctx.rule = ('seeded integer images 2x2..14x14, box sizes 1..image (dividing or not, box == image), masks (sometimes a whole box), NaN/inf, '
-                'coverage masks, exclude_percentile in {0,10,50,90,100}, Median/Mean estimators, zoom/IDW interpolators, with and without bottleneck; '
+                'coverage masks, exclude_percentile in {0,10,50,90,100}, filter sizes 1/3/5 per axis (whole mesh or selective above a threshold), Median/Mean estimators, zoom/IDW interpolators, with and without bottleneck; '
                 'non-trivial = image has a padded edge box or an excluded box')
     n = 500 if q else 8000
     seeds = [ctx.seed * 40692 + i for i in range(n)]
@@ -159,12 +187,13 @@ def run(ctx):
         v = ver[r['id']]
         if not v['ok']:
             ctx.violation(v['clause'], {'kind': r['kind'], 'rel': r.get('rel'), 'estimator': r.get('estimator'), 'zoom': r.get('zoom'),
-                                        'no_bottleneck': bool(r.get('nobottleneck')), 'divides': (len(r['data']) % r['box'][0] == 0 and len(r['data'][0]) % r['box'][1] == 0) if r['kind'] == 'mesh' else None},
+                                        'no_bottleneck': bool(r.get('nobottleneck')), 'fs': r.get('fs'), 'sel': r.get('sel'),
+                                        'divides': (len(r['data']) % r['box'][0] == 0 and len(r['data'][0]) % r['box'][1] == 0) if r['kind'] == 'mesh' else None},
                           {'case': r})
         else:
             ctx.traces += 1
     ctx.evaluations += len(recs)
-    ctx.nontrivial += sum(1 for r in recs if r['kind'] == 'pair' or len(r['data']) % r['box'][0] or len(r['data'][0]) % r['box'][1] or r['bad'])
+    ctx.nontrivial += sum(1 for r in recs if r['kind'] in ('pair', 'filter') or len(r['data']) % r['box'][0] or len(r['data'][0]) % r['box'][1] or r['bad'])
     ex = next(r for r in recs if r['kind'] == 'mesh' and not r['raised'])
     ctx.sample({k: ex[k] for k in ('data', 'bad', 'box', 'p', 'estimator', 'mesh', 'npix')})
     good = [r for r in recs if ver[r['id']]['ok'] and r['kind'] == 'mesh' and not r['raised'] and r['p'] == 100][:4]
@@ -180,7 +209,7 @@ def run(ctx):
         vb = core.validate_batch(ctx, 'Trace_Bkg2D', bad, 'SelfTest:Bkg2D', shards=2)
         rej = [not v['ok'] for v in vb.values()]
         ctx.selftest('perturbed mesh value / npixels_mesh', sum(rej) >= len(rej) - 1, f'{sum(rej)}/{len(rej)} rejected (clip ties are don\'t-care)')
-    ctx.assumptions += ['estimators other than Median/Mean, the median filter of the meshes and the numerical quality of the interpolators are not re-derived '
+    ctx.assumptions += ['estimators other than Median/Mean and the numerical quality of the interpolators are not re-derived '
                         '(range, finiteness and relations only)', 'constant image is compared at 1/1024 (the IDW fill is exact only to 1 ulp)']
 
 
